@@ -592,6 +592,25 @@ func (s *signGen) scenario() {
 	switch k := s.r.Intn(20); {
 	case k < 9 && len(all) > 0: // signable: 1..4 coins of the wallet, enough outputs for SINGLE
 		cs := pickN(all, 1+s.r.Intn(4))
+		// withdrawals are rarer than standard coins: take one on board when there is one
+		if s.r.Intn(3) == 0 {
+			for _, want := range []string{"bind", "stk", "bind22"} {
+				for _, c := range all {
+					if c.cls == want {
+						dup := false
+						for _, x := range cs {
+							if x.key() == c.key() {
+								dup = true
+							}
+						}
+						if !dup {
+							cs[len(cs)-1] = c
+						}
+						break
+					}
+				}
+			}
+		}
 		var ins []string
 		cls := map[string]bool{}
 		addrs := map[string]bool{}
